@@ -15,10 +15,12 @@ package utils
 
 //@ func AcquireArgs
 //@   property C20
+//@   modifies nothing
 //@   ensures[empty] len(result.args) == 0
 
 //@ func ReleaseArgs
 //@   property C20
+//@   modifies a.args
 
 //@ func init$argsPool.New
 //@   property C20
@@ -31,10 +33,12 @@ package utils
 
 //@ func (*BufferPool).Get
 //@   property C20
+//@   modifies nothing
 //@   ensures[empty-buffer] len(result.B) == 0
 
 //@ func (*BufferPool).Put
 //@   property C20
+//@   modifies b.B, allof(type(BufferPool)), allelems(type(uint64)), allelems(type(callSize)), allelems(type(byte))
 
 // ---- C20: a recycled Args never exposes a stale slot ------------------------
 // Reset only truncates a.args; the argsKV slots beyond len keep the previous
